@@ -9,6 +9,11 @@ use in_toto::crypto::{PrivateKey, KeyType, PublicKey, SignatureScheme};
 use in_toto::models::{LayoutMetadata, LayoutMetadataBuilder};
 use serde_json::{json, Value};
 
+/// a key id as the text it is (not through the type's own notion of equality)
+fn keyid_text(id: &in_toto::crypto::KeyId) -> String {
+    serde_json::to_value(id).ok().and_then(|v| v.as_str().map(String::from)).unwrap_or_default()
+}
+
 fn type_name(t: &KeyType) -> &'static str {
     match t {
         KeyType::Ed25519 => "ed25519",
@@ -314,6 +319,14 @@ pub fn run(cfg: &Cfg) {
                 wrong = rel;
             }
         }
+        // the key's own id in another spelling (hex letters in upper case, or only some of them): to a
+        // reader of hexadecimal numbers the same number, as an identifier another string
+        if r.chance(1, 4) {
+            let respelled: String = if r.chance(1, 2) { ida.to_uppercase() } else { ida.chars().map(|c| if r.chance(1, 2) { c.to_ascii_uppercase() } else { c }).collect() };
+            if respelled != ida {
+                wrong = respelled;
+            }
+        }
         // the optional `keyid` member inside a key description: as written, absent, another key's id,
         // an unrelated id - it never decides what the key's id is
         for (k, other) in [(&mut ka, &idb), (&mut kb, &ida)] {
@@ -358,7 +371,7 @@ pub fn run(cfg: &Cfg) {
             Ok(parsed) => {
                 // the id of a key is the one the pool derived from the same material (private-key load path)
                 let intrinsic = |k: &PublicKey| pool.iter().find(|p| p.public().as_bytes() == k.as_bytes() && p.public().typ() == k.typ() && p.public().scheme() == k.scheme()).map(|p| keyid_hex(p.public()));
-                let ok = parsed.keys.iter().all(|(id, k)| id == k.key_id() && Some(serde_json::to_value(id).unwrap().as_str().unwrap().to_string()) == intrinsic(k));
+                let ok = parsed.keys.iter().all(|(id, k)| id == k.key_id() && keyid_text(id) == keyid_hex(k) && Some(serde_json::to_value(id).unwrap().as_str().unwrap().to_string()) == intrinsic(k));
                 sink.oracle(ok, "a parsed layout's key table maps an id to a key with another intrinsic id", &format!("layout {}", hex(text.as_bytes())));
                 sink.stat(&format!("keytable/kept-{}", parsed.keys.len()));
             }
@@ -375,6 +388,7 @@ pub fn run(cfg: &Cfg) {
         };
         let algs = if r.chance(1, 2) { "~".to_string() } else { hexs("sha256") };
         let rel = model.ask(&format!("keyid {} {} {} {}", type_name(a.public().typ()), hexs(&scheme_name(a.public().scheme())), algs, hex(a.public().as_bytes())));
+        let rel = if r.chance(1, 3) { keyid_hex(a.public()).to_uppercase() } else { rel };
         if rel.len() != 64 || rel == keyid_hex(a.public()) {
             continue;
         }
